@@ -25,11 +25,18 @@
   * the SYMBOLIC branch of every leaf (`Model/C14Sym.lean`): entries as expressions over the slots' `spv`, evaluated
     at any real values = documented matrix = numeric branch (`symbolic_bs` … `symbolic_pr`), `spv` evaluates to what
     `float()` reads, base change of the ring-polymorphic definitions, `PBS`;
-  * `PS.max_error ≠ 0` stays in the documented family (`ps_max_error`); `compute_unitary(assign=…)` per leaf.
+  * `PS.max_error ≠ 0` stays in the documented family (`ps_max_error`); `compute_unitary(assign=…)` per leaf;
+  * (wave 7) the LINK session model ↔ symbolic theorems as one theorem per leaf (`session_symbolic_bs` … `_pr`,
+    `expression_live_symbolic_ps`): the rational value `float()` reads is the real value of `spv` under the true
+    functions (`xexpr_session_value_is_real_value`, from `xexpr_eval_base_change`) for arithmetic expressions and
+    for `pi`-free ones over an exact table.  NOT proved (false as an exact statement, `link_fails_on_pi`,
+    `link_needs_true_table`): expressions containing `pi` or read through rounded table entries — there the session
+    value only approximates the real one and no error bound is proved.
 -/
 import PercevalModel.Lemmas.C14Complex
 import PercevalModel.Lemmas.C14Life
 import PercevalModel.Lemmas.C14Sym
+import PercevalModel.Lemmas.C14Link
 import PercevalModel.Num.GQ
 
 open Matrix PM Complex
@@ -1213,6 +1220,203 @@ example : (computeAssign true true exL ["a", "f"] [("zz", 1)]).2 = some .KeyErro
     (computeAssign true false exL ["a", "f"] [("zz", 1), ("a", 9)]).2 = none ∧
     ((computeAssign true false exL ["a", "f"] [("a", 9)]).1 "a") = some pFresh ∧
     ((computeAssign true true exL ["a", "f"] [("a", 9)]).1 "a") = some ⟨some 0, some 4, true, true, some 1⟩ := by
+  decide +kernel
+
+/-! ### wave 7: ONE combined theorem linking the rational session model to the real-valued symbolic theorems
+
+Until here the link was "by statement": the session theorems speak of rational values read by `float()` under a
+table `I : Interp ℚ`, the symbolic theorems of ALL real assignments.  `Lemmas/C14Link.lean` proves that
+evaluation commutes with the cast `ℚ → ℝ` (with every field homomorphism, `XExpr.eval_map`), which joins them. -/
+
+section link
+open PM.SM
+
+/-- Session value = real value.  An expression that is arithmetic of parameters and numbers (what the overloaded
+operators build; NO assumption on the table), or any `pi`-free expression over a table of function values whose
+entries are exact, and that evaluates to the rational `v` at the session's values, evaluates to `(v : ℝ)` under
+the true real functions at the same values. -/
+theorem xexpr_session_value_is_real_value (I : Interp ℚ) (env : String → Option ℚ) {e : XExpr}
+    (hl : e.Linkable I) {v : ℚ} (h : e.eval I env = some v) : e.evalR (realEnv env) = some (v : ℝ) :=
+  XExpr.evalR_of_linkable I env hl h
+
+/-- For arithmetic expressions it is an EQUATION, undefinedness included (a divisor or the base of a negative
+power is zero in `ℚ` iff it is in `ℝ`), for every table. -/
+theorem xexpr_arith_real_eq (I : Interp ℚ) (env : String → Option ℚ) {e : XExpr} (h : e.arith = true) :
+    e.evalR (realEnv env) = (e.eval I env).map fun q : ℚ => (q : ℝ) :=
+  XExpr.evalR_arith I env h
+
+/-- The general form: evaluation commutes with every field homomorphism `f` along which the interpretation is
+respected (`pi` only if it occurs). -/
+theorem xexpr_eval_base_change {K L : Type*} [Field K] [DecidableEq K] [Field L] [DecidableEq L] (f : K →+* L)
+    (I : Interp K) (J : Interp L) (hfn : Interp.Extends f I J) (env : String → Option K) (e : XExpr)
+    (hpi : e.usesPi = true → f I.pi = J.pi) {v : K} (h : e.eval I env = some v) :
+    e.eval J (fun x => (env x).map f) = some (f v) :=
+  XExpr.eval_map f I J hfn env e hpi h
+
+/-- NECESSITY of "`pi` does not occur": whatever rational the table gives for `pi`, the session value of the
+expression `pi` is NOT its real value (`π` is irrational). -/
+theorem link_fails_on_pi (I : Interp ℚ) (env : String → Option ℚ) :
+    XExpr.pi.eval I env = some I.pi ∧ XExpr.pi.evalR (realEnv env) ≠ some ((I.pi : ℚ) : ℝ) := by
+  refine ⟨rfl, ?_⟩
+  simp only [XExpr.evalR, XExpr.eval, realInterp_pi, ne_eq, Option.some.injEq]
+  exact pi_ne_ratCast I.pi
+
+/-- NECESSITY of the true table: with the entry `sin 0 = 1` the session value of `sin(0)` is `1`, the real one `0`. -/
+theorem link_needs_true_table :
+    ∃ (I : Interp ℚ) (e : XExpr), e.usesPi = false ∧ e.eval I (fun _ => none) = some 1 ∧
+      e.evalR (realEnv fun _ => none) = some 0 := by
+  refine ⟨⟨0, fun _ _ => some 1⟩, .app .sin (.const 0), rfl, ?_, ?_⟩
+  · simp [XExpr.eval]
+  · simp [XExpr.evalR, XExpr.eval]
+
+/-- A slot: whatever it holds (a number, a raw parameter with or without value, an Expression object live or
+overridden, an exact sympy number), when `float()` gives the rational `v` in the session and the `spv` is
+linkable, `spv` evaluated with the TRUE real functions at the current values is `(v : ℝ)`. -/
+theorem slot_real_value (I : Interp ℚ) (S : XSt) (r : SlotRef) {v : ℚ} (h : slotFloat I S r = .inr v)
+    (hl : ∀ e, slotSpv S r = some e → e.Linkable I) :
+    ∃ e, slotSpv S r = some e ∧ e.evalR (realEnv (LStore.env S.1)) = some (v : ℝ) := by
+  obtain ⟨e, he, hv⟩ := slot_spv_evaluates_to_float I S r h
+  exact ⟨e, he, XExpr.evalR_of_linkable I _ (hl e he) hv⟩
+
+/-- A slot holding a raw parameter is always linkable (its `spv` is a number or a free symbol). -/
+theorem slot_par_linkable (I : Interp ℚ) (S : XSt) (key : String) :
+    ∀ e, slotSpv S (.par key) = some e → e.Linkable I := by
+  intro e he
+  simp only [slotSpv] at he
+  cases hk : S.1 key with
+  | none => simp [hk] at he
+  | some p =>
+    simp only [hk, Option.map_some, Option.some.injEq] at he
+    subst he
+    unfold Par.spv
+    cases p.val <;> exact Or.inl rfl
+
+/-- COMBINED, beam splitter (all conventions): in ANY session state (hence after any history), when the five
+slots read the rationals `vals` through `float()`, the symbolic matrix the code builds from their `spv`, evaluated
+with the true real functions at the current values of the raw parameters, is entry by entry the documented matrix
+at `vals`, which is also the numeric branch at `vals`. -/
+theorem session_symbolic_bs (conv : Conv) (I : Interp ℚ) (S : XSt) (slots : Fin 5 → SlotRef) (vals : Fin 5 → ℚ)
+    (h : ∀ k, slotFloat I S (slots k) = .inr (vals k))
+    (hl : ∀ k e, slotSpv S (slots k) = some e → e.Linkable I) :
+    ∃ es : Fin 5 → XExpr, (∀ k, slotSpv S (slots k) = some (es k)) ∧
+      (∀ i j, (symBS conv (es 0) (es 1) (es 2) (es 3) (es 4) i j).evalC (realEnv (LStore.env S.1)) =
+        some (bsDoc conv (vals 0) (vals 1) (vals 2) (vals 3) (vals 4) i j)) ∧
+      bsNum Complex.I conv (angR ((vals 0 : ℝ) / 2)) (angR (vals 1)) (angR (vals 2)) (angR (vals 3)) (angR (vals 4)) =
+        bsDoc conv (vals 0) (vals 1) (vals 2) (vals 3) (vals 4) := by
+  choose es hes using fun k => slot_real_value I S (slots k) (h k) (hl k)
+  have := symbolic_bs conv (es 0) (es 1) (es 2) (es 3) (es 4) (realEnv (LStore.env S.1))
+    (hes 0).2 (hes 1).2 (hes 2).2 (hes 3).2 (hes 4).2
+  exact ⟨es, fun k => (hes k).1, this.1, this.2⟩
+
+/-- COMBINED, phase shifter. -/
+theorem session_symbolic_ps (I : Interp ℚ) (S : XSt) (r : SlotRef) {v : ℚ} (h : slotFloat I S r = .inr v)
+    (hl : ∀ e, slotSpv S r = some e → e.Linkable I) :
+    ∃ e, slotSpv S r = some e ∧
+      (∀ i j, (symPS e i j).evalC (realEnv (LStore.env S.1)) = some (psDoc (v : ℝ) i j)) ∧
+      psNum Complex.I (angR (v : ℝ)) = psDoc (v : ℝ) := by
+  obtain ⟨e, he, hv⟩ := slot_real_value I S r h hl
+  exact ⟨e, he, (symbolic_ps e _ hv).1, (symbolic_ps e _ hv).2⟩
+
+/-- COMBINED, wave plate (both slots). -/
+theorem session_symbolic_wp (I : Interp ℚ) (S : XSt) (rd rx : SlotRef) {d x : ℚ}
+    (hd : slotFloat I S rd = .inr d) (hx : slotFloat I S rx = .inr x)
+    (hld : ∀ e, slotSpv S rd = some e → e.Linkable I) (hlx : ∀ e, slotSpv S rx = some e → e.Linkable I) :
+    ∃ ed ex, slotSpv S rd = some ed ∧ slotSpv S rx = some ex ∧
+      (∀ i j, (symWP ed ex i j).evalC (realEnv (LStore.env S.1)) = some (wpDoc (d : ℝ) (x : ℝ) i j)) ∧
+      wp Complex.I (angR (d : ℝ)) (angR (x : ℝ)) = wpDoc (d : ℝ) (x : ℝ) := by
+  obtain ⟨ed, hed, hvd⟩ := slot_real_value I S rd hd hld
+  obtain ⟨ex, hex, hvx⟩ := slot_real_value I S rx hx hlx
+  exact ⟨ed, ex, hed, hex, (symbolic_wp ed ex _ hvd hvx).1, (symbolic_wp ed ex _ hvd hvx).2⟩
+
+/-- COMBINED, half- and quarter-wave plates: the first slot holds the exact `pi/2`, `pi/4` (NOT linkable: it is
+evaluated at the reals directly), the second any linkable slot. -/
+theorem session_symbolic_hwp_qwp (I : Interp ℚ) (S : XSt) (rx : SlotRef) {x : ℚ}
+    (hx : slotFloat I S rx = .inr x) (hlx : ∀ e, slotSpv S rx = some e → e.Linkable I) :
+    ∃ ex, slotSpv S rx = some ex ∧
+      (∀ i j, (symHWP ex i j).evalC (realEnv (LStore.env S.1)) = some (wpDoc (Real.pi / 2) (x : ℝ) i j)) ∧
+      (∀ i j, (symQWP ex i j).evalC (realEnv (LStore.env S.1)) = some (wpDoc (Real.pi / 4) (x : ℝ) i j)) := by
+  obtain ⟨ex, hex, hvx⟩ := slot_real_value I S rx hx hlx
+  exact ⟨ex, hex, (symbolic_hwp_qwp ex _ hvx).1, (symbolic_hwp_qwp ex _ hvx).2⟩
+
+/-- COMBINED, polarisation rotator. -/
+theorem session_symbolic_pr (I : Interp ℚ) (S : XSt) (r : SlotRef) {d : ℚ} (h : slotFloat I S r = .inr d)
+    (hl : ∀ e, slotSpv S r = some e → e.Linkable I) :
+    ∃ e, slotSpv S r = some e ∧
+      (∀ i j, (symPR e i j).evalC (realEnv (LStore.env S.1)) = some (prDoc (d : ℝ) i j)) ∧
+      pr (angR (d : ℝ)) = prDoc (d : ℝ) := by
+  obtain ⟨e, he, hv⟩ := slot_real_value I S r h hl
+  exact ⟨e, he, (symbolic_pr e _ hv).1, (symbolic_pr e _ hv).2⟩
+
+/-- END TO END (`expression_live` + `symbolic_ps`).  From the creation of an Expression object `id` with the tree
+`e` on, over EVERY history in which the object is not created again nor given a value: the `spv` the symbolic
+branch reads is the tree `e` itself with its symbols free; whenever the slot holding it reads a value `v`, that
+value is the expression at the current values, and the symbolic `PS` matrix evaluated with the true real functions
+at the current values of the raw parameters is the documented phase shifter at `v` = the numeric branch. -/
+theorem expression_live_symbolic_ps (sound : Bool) (I : Interp ℚ) (s : XSt) (id : String) (e : XExpr)
+    (post : List XOp) (hc : ∀ op ∈ post, op.creates id = false)
+    (hov : ∀ op ∈ XOp.objOps id post, op.overrides = false) (hl : e.Linkable I) {v : ℚ}
+    (hv : slotFloat I (exec (xstep sound) s (.xnew id e :: post)) (.ex id) = .inr v) :
+    slotSpv (exec (xstep sound) s (.xnew id e :: post)) (.ex id) = some e ∧
+      e.eval I (LStore.env (exec (xstep sound) s (.xnew id e :: post)).1) = some v ∧
+      (∀ i j, (symPS e i j).evalC (realEnv (LStore.env (exec (xstep sound) s (.xnew id e :: post)).1)) =
+        some (psDoc (v : ℝ) i j)) ∧
+      psNum Complex.I (angR (v : ℝ)) = psDoc (v : ℝ) := by
+  have hspv : slotSpv (exec (xstep sound) s (.xnew id e :: post)) (.ex id) = some e := by
+    rw [exec_cons]
+    simp only [slotSpv]
+    rw [xexec_obj sound _ post id (EObj.init e) (by simp [xstep]) hc]
+    obtain ⟨h1, h2⟩ := exec_estep_live sound (EObj.init e) _ (EObj.init_live e) hov
+    simp only [Option.bind_some, EObj.spv, h1, h2, if_true, exec_estep_e]
+    rfl
+  obtain ⟨e', he', hv'⟩ := slot_spv_evaluates_to_float I _ _ hv
+  rw [hspv, Option.some.injEq] at he'
+  subst he'
+  have hr := XExpr.evalR_of_linkable I _ hl hv'
+  exact ⟨hspv, hv', (symbolic_ps e _ hr).1, (symbolic_ps e _ hr).2⟩
+
+end link
+
+/-! non-vacuity of the wave-7 theorems -/
+
+/-- `Interp.TrueTable` is satisfiable by a non-empty table: `sqrt 4 = 2`, `sin 0 = 0`, `cos 0 = 1` (the table `exI`
+of the examples above; its `pi = 22/7` is irrelevant for `pi`-free expressions). -/
+example : exI.TrueTable := by
+  intro g x y h
+  cases g with
+  | sqrt =>
+    simp only [exI] at h
+    split_ifs at h with hx
+    · simp only [Option.some.injEq] at h
+      subst hx; subst h
+      have h4 : Real.sqrt 4 = 2 := by
+        rw [show (4 : ℝ) = 2 ^ 2 by norm_num]; exact Real.sqrt_sq (by norm_num)
+      simp [realInterp, h4]
+  | sin =>
+    simp only [exI] at h
+    split_ifs at h with hx
+    · simp only [Option.some.injEq] at h
+      subst hx; subst h
+      simp [realInterp]
+  | cos =>
+    simp only [exI] at h
+    split_ifs at h with hx
+    · simp only [Option.some.injEq] at h
+      subst hx; subst h
+      simp [realInterp]
+  | exp => simp [exI] at h
+  | acos => simp [exI] at h
+
+/-- `session_symbolic_*`, `expression_live_symbolic_ps`: the hypotheses hold — the tree `2*a - b**-2` is
+arithmetic, hence linkable for every table; in the history `a = 4`, `b = 1/2` the slot holding it reads `4`. -/
+example :
+    (XExpr.sub (.mul (.const 2) (.var "a")) (.powi (.var "b") (-2))).arith = true ∧
+    (let post : List XOp := [.xpar "e" (.bind (some 0) (some 6) (some true)), .base (.par "a" (.set 4 false)),
+        .base (.par "b" (.set (1 / 2) false))]
+     let s0 : XSt := SM.exec (xstep true) (fun _ => none, fun _ => none)
+        [.base (.new "a" none none none true), .base (.new "b" none none none true)]
+     (∀ op ∈ post, op.creates "e" = false) ∧ (∀ op ∈ XOp.objOps "e" post, op.overrides = false) ∧
+      slotFloat exI (SM.exec (xstep true) s0
+        (.xnew "e" (.sub (.mul (.const 2) (.var "a")) (.powi (.var "b") (-2))) :: post)) (.ex "e") = .inr 4) := by
   decide +kernel
 
 end PM.C14
